@@ -5,7 +5,7 @@
      sound_frag s   every accepted byte string decodes to a domain value that re-encodes (de_sound);
      canon s        ... and the re-encoding is the very bytes that were consumed (no non-canonical input exists).
 
-   Where a constructor admits accepted inputs whose decoded value cannot be written back, it is excluded from
+   Where a constructor has accepted inputs whose decoded value cannot be written back, it is excluded from
    [sound_frag] and a witness is proved in SpecSoundProofs.v (..._refuted).  [canon] is what makes a length-framed
    wrapper (TypedBytes with a length prefix / fixed size, the size-keyed default branch of a LengthSwitch) sound:
    the frame that was read fits again only when the inner re-encoding has the length that was read. *)
@@ -48,7 +48,7 @@ Definition bf_total (fs : bschema) : N := fold_right (fun f a => snd (fst f) + a
 Definition ad_sound (a : adapter) (s : spec) : bool :=
   match a, s with
   | ASimple a', SPrim (PI _) => sa_sound a'
-  | ABitField fs sh, SPrim (PI (IP false w)) => false && bf_entries_ok fs sh true && (bf_total fs <=? 8 * wN w)
+  | ABitField fs sh, SPrim (PI (IP false w)) => bf_entries_ok fs sh true && (bf_total fs <=? 8 * wN w)
   | _, _ => false
   end.
 
